@@ -57,17 +57,27 @@ Proof.
   inversion H. split; [reflexivity|discriminate].
 Qed.
 
-Lemma restore_ok : forall i, wf_inst i = true -> state_guard i = true ->
+Lemma restore_ok : forall i, wf_inst i = true ->
   exists r, restore i = SOk r /\ i_slotnames r = i_slotnames i
             /\ same_store (i_slots r) (i_slots i) /\ same_dict (i_dict r) (i_dict i).
 Proof.
-  intros i Hwf Hg. unfold wf_inst in Hwf. apply andb_true_iff in Hwf. destruct Hwf as [Hwf Hd].
+  intros i Hwf. unfold wf_inst in Hwf. apply andb_true_iff in Hwf. destruct Hwf as [Hwf Hd].
   apply andb_true_iff in Hwf. destruct Hwf as [Hsn Hsd]. rewrite forallb_forall in Hsn.
-  unfold restore, getstate. unfold state_guard in Hg.
+  unfold restore, getstate.
   destruct (i_slots i) as [|x s] eqn:Es.
-  - destruct (dict_part i) eqn:Edp; [discriminate|]. exists (blank i). split; [reflexivity|]. split; [reflexivity|].
-    split; [intro k; reflexivity|]. unfold blank. cbn [i_dict].
-    destruct (dict_part_none i Edp) as [H|H]; rewrite H; [exact I|intro k; reflexivity].
+  - destruct (dict_part i) as [d|] eqn:Edp.
+    + destruct (dict_part_some i d Edp) as [Hid Hne]. rewrite Hid in Hd. apply andb_true_iff in Hd.
+      destruct Hd as [Hdn Hdd]. rewrite forallb_forall in Hdn.
+      cbn [slots_setstate].
+      rewrite (set_items_dict d (blank i) []);
+        [|unfold blank; cbn [i_dict]; rewrite Hid; reflexivity
+         |intros k Hk; cbn [blank i_slotnames]; apply negb_true_iff; apply Hdn; exact Hk].
+      eexists. split; [reflexivity|]. cbn [i_slotnames i_slots i_dict blank]. split; [reflexivity|]. split.
+      * intro k. reflexivity.
+      * rewrite Hid. intro k. apply assoc_fold_nil. exact Hdd.
+    + exists (blank i). split; [reflexivity|]. split; [reflexivity|].
+      split; [intro k; reflexivity|]. unfold blank. cbn [i_dict].
+      destruct (dict_part_none i Edp) as [H|H]; rewrite H; [exact I|intro k; reflexivity].
   - set (s' := x :: s) in *.
     assert (Hslot : forall k, In k (keys s') -> mem k (i_slotnames i) = true) by (intros k Hk; apply Hsn; exact Hk).
     cbn [slots_setstate set_parts]. destruct (dict_part i) as [d|] eqn:Edp.
@@ -87,4 +97,12 @@ Proof.
       eexists. split; [reflexivity|]. cbn [i_slotnames i_slots i_dict]. split; [reflexivity|]. split.
       * intro k. apply assoc_fold_nil. exact Hsd.
       * destruct (dict_part_none i Edp) as [H|H]; rewrite H; [exact I|intro k; reflexivity].
+Qed.
+
+Lemma restore_fieldless : forall i, wf_inst i = true -> i_slots i = [] ->
+  exists r, restore i = SOk r /\ i_slots r = [] /\ same_dict (i_dict r) (i_dict i).
+Proof.
+  intros i Hwf Hs. destruct (restore_ok i Hwf) as [r [A [_ [B C]]]]. exists r. split; [exact A|]. split; [|exact C].
+  rewrite Hs in B. destruct (i_slots r) as [|[k v] t]; [reflexivity|].
+  specialize (B k). cbn [assoc fst snd] in B. rewrite seqb_refl in B. discriminate.
 Qed.
